@@ -647,9 +647,508 @@ Proof.
   - (* TOpaque *) cbn in Hty. discriminate.
 Qed.
 
+
+(* ------------------------------------------------------------------ *)
+(* every encoding is exactly one well-formed data item: skipping S n items over it costs one
+   unit of fuel per token and leaves n items to skip *)
+Lemma skip_flat : forall (e : value -> list tok) l rest f n,
+  (forall v r f' n', In v l -> skip_items (length (e v) + f') (S n') (e v ++ r) = skip_items f' n' r) ->
+  skip_items (length (flat_map e l) + f) (length l + n) (flat_map e l ++ rest) = skip_items f n rest.
+Proof.
+  induction l as [|x l IH]; intros rest f n H; cbn [flat_map length app Nat.add]; [reflexivity|].
+  rewrite app_length, <- app_assoc, <- Nat.add_assoc.
+  rewrite H by (left; reflexivity). apply IH. intros; apply H; right; assumption.
+Qed.
+
+Lemma skip_slots : forall fs es is rest f n,
+  (forall i p fl, In i is -> find_fld fs i = Some (p, fl) ->
+     forall r f' n', skip_items (length (nth p es []) + f') (S n') (nth p es [] ++ r) = skip_items f' n' r) ->
+  skip_items (length (flat_map (enc_slot fs es) is) + f) (length is + n) (flat_map (enc_slot fs es) is ++ rest)
+  = skip_items f n rest.
+Proof.
+  induction is as [|i is IH]; intros rest f n H; cbn [flat_map length app Nat.add]; [reflexivity|].
+  rewrite app_length, <- app_assoc, <- Nat.add_assoc.
+  assert (Hs : skip_items (length (enc_slot fs es i) + (length (flat_map (enc_slot fs es) is) + f)) (S (length is + n))
+                 (enc_slot fs es i ++ flat_map (enc_slot fs es) is ++ rest)
+               = skip_items (length (flat_map (enc_slot fs es) is) + f) (length is + n) (flat_map (enc_slot fs es) is ++ rest)).
+  { unfold enc_slot at 1 3. destruct (find_fld fs i) as [[p fl]|] eqn:E.
+    - eapply H; [left; reflexivity|eassumption].
+    - reflexivity. }
+  rewrite Hs. apply IH. intros; eapply H; [right|]; eassumption.
+Qed.
+
+Lemma enc_rec_item : forall fs l nl rest f n,
+  length fs = length l ->
+  (forall p fl v, nth_error fs p = Some fl -> nth_error l p = Some v ->
+     forall r f' n', skip_items (length (encf fl v) + f') (S n') (encf fl v ++ r) = skip_items f' n' r) ->
+  skip_items (length (enc_rec fs (encs fs l) nl) + f) (S n) (enc_rec fs (encs fs l) nl ++ rest) = skip_items f n rest.
+Proof.
+  intros fs l nl rest f n Hlen H. unfold enc_rec. destruct (max_idx fs nl) as [m|].
+  - cbn [length app Nat.add skip_items].
+    pose proof (skip_slots fs (encs fs l) (seq 0 (S m)) rest f n) as Hs. rewrite seq_length in Hs.
+    apply Hs. intros i p fl _ Hf r f' n'. unfold find_fld in Hf. apply find_fld_from_some in Hf.
+    destruct Hf as (p' & -> & Hn & _). cbn [Nat.add].
+    assert (Hp : p' < length l). { rewrite <- Hlen. apply nth_error_Some. congruence. }
+    destruct (nth_error l p') as [v|] eqn:Ev; [|apply nth_error_None in Ev; lia].
+    rewrite (encs_nth _ _ _ _ _ Hn Ev). eapply H; eassumption.
+  - reflexivity.
+Qed.
+
+Lemma prim_item : forall p v rest f n, ht_prim p v = true ->
+  skip_items (length (enc_prim p v) + f) (S n) (enc_prim p v ++ rest) = skip_items f n rest.
+Proof.
+  intros p v rest f n H. destruct p, v; cbn in H; try discriminate; try reflexivity.
+  cbn [enc_prim]. destruct (Z.leb 0 z); reflexivity.
+Qed.
+
+Theorem enc_items_fuel : forall d t v rest f n,
+  ty_wf Sc t = true -> ht t v = true -> vdepth v < d ->
+  skip_items (length (enc t v) + f) (S n) (enc t v ++ rest) = skip_items f n rest.
+Proof.
+  induction d as [|d IH]; intros t v rest f n Hty Hht Hd; [lia|].
+  destruct t.
+  - rewrite enc_TP. rewrite ht_TP in Hht. apply prim_item. exact Hht.
+  - cbn [ty_wf] in Hty. apply andb_true_iff in Hty. destruct Hty as [Hty _].
+    destruct v; cbn [Cbor.ht] in Hht; try discriminate.
+    + reflexivity.
+    + cbn [Cbor.enc]. apply IH; [assumption|assumption|cbn in Hd; lia].
+  - destruct v; cbn [Cbor.ht] in Hht; try discriminate. cbn [ty_wf] in Hty.
+    cbn [Cbor.enc length app Nat.add skip_items].
+    apply skip_flat. intros x r f' n' Hin. apply IH; [assumption| |].
+    + rewrite forallb_forall in Hht. apply Hht. exact Hin.
+    + cbn in Hd. pose proof (vdepth_in _ _ Hin). lia.
+  - destruct v; cbn [Cbor.ht] in Hht; try discriminate. cbn [ty_wf] in Hty.
+    apply andb_true_iff in Hty. destruct Hty as [Hk Hv].
+    cbn [Cbor.enc length app Nat.add skip_items].
+    (* 2 items per entry: regroup k + k + n as a count over the entries *)
+    assert (G : forall l0 rest0 f0 n0,
+               (forall e, In e l0 -> In e l) ->
+               skip_items (length (flat_map (fun e => match e with VPair k x => enc t1 k ++ enc t2 x | _ => [] end) l0) + f0)
+                          (length l0 + length l0 + n0)
+                          (flat_map (fun e => match e with VPair k x => enc t1 k ++ enc t2 x | _ => [] end) l0 ++ rest0)
+               = skip_items f0 n0 rest0).
+    { induction l0 as [|e l0 IHl]; intros rest0 f0 n0 Hsub; [reflexivity|].
+      cbn [flat_map length app]. rewrite app_length, <- app_assoc.
+      assert (Hin : In e l) by (apply Hsub; left; reflexivity).
+      rewrite forallb_forall in Hht. pose proof (Hht e Hin) as He.
+      destruct e; try discriminate. apply andb_true_iff in He. destruct He as [H1 H2].
+      pose proof (vdepth_in _ _ Hin) as Hdd. cbn in Hd. cbn [vdepth] in Hdd.
+      rewrite app_length, <- app_assoc.
+      replace (length (enc t1 e1) + length (enc t2 e2) + length (flat_map (fun e => match e with VPair k x => enc t1 k ++ enc t2 x | _ => [] end) l0) + f0)
+        with (length (enc t1 e1) + (length (enc t2 e2) + (length (flat_map (fun e => match e with VPair k x => enc t1 k ++ enc t2 x | _ => [] end) l0) + f0))) by lia.
+      replace (S (length l0) + S (length l0) + n0) with (S (S (length l0 + length l0 + n0))) by lia.
+      rewrite IH by (try assumption; lia). rewrite IH by (try assumption; lia).
+      apply IHl. intros; apply Hsub; right; assumption. }
+    apply G. auto.
+  - destruct v; try (cbn [Cbor.ht] in Hht; discriminate).
+    rewrite ht_tup in Hht. rewrite enc_tup. cbn [length app Nat.add skip_items].
+    rewrite (ht_tuple_length _ _ Hht).
+    assert (G : forall tys l1 rest0 f0 n0, ht_tuple Sc tys l1 = true ->
+               (forall t, In t tys -> In t l) -> (forall v, In v l1 -> In v l0) ->
+               skip_items (length (enc_tuple Sc tys l1) + f0) (length l1 + n0) (enc_tuple Sc tys l1 ++ rest0)
+               = skip_items f0 n0 rest0).
+    { intros tys l1. revert tys. induction l1 as [|v l1 IHl]; intros [|t tys] rest0 f0 n0 Hh Ht Hv; cbn in Hh; try discriminate.
+      - reflexivity.
+      - apply andb_true_iff in Hh. destruct Hh as [H1 H2].
+        cbn [Cbor.enc_tuple length Nat.add]. rewrite app_length, <- app_assoc, <- Nat.add_assoc.
+        rewrite IH; [apply IHl; [assumption|intros; apply Ht; right; assumption|intros; apply Hv; right; assumption]| |assumption|].
+        + eapply ty_wf_tup; [eassumption|]. apply Ht. left; reflexivity.
+        + cbn in Hd. pose proof (vdepth_in _ _ (Hv v (or_introl eq_refl))). lia. }
+    apply G; auto.
+  - destruct (lookup name) as [[[|] fs|vs]|] eqn:El.
+    + pose proof (lookup_wf _ _ El) as Hw. cbn in Hw.
+      destruct fs as [|fl [|]]; try discriminate.
+      apply andb_true_iff in Hw. destruct Hw as [Hfw Hi].
+      rewrite (ht_struct _ _ _ _ El) in Hht. destruct v; try discriminate.
+      destruct l as [|v' [|]]; cbn in Hht; try discriminate;
+        [|rewrite andb_false_r in Hht; discriminate].
+      rewrite andb_true_r in Hht.
+      rewrite (enc_transparent _ _ _ El). cbn [Cbor.encs].
+      unfold Cbor.htf in Hht. unfold Cbor.encf.
+      destruct (f_idx fl) eqn:Ei; [|discriminate].
+      destruct (fkind_of fl) as [t'|c|] eqn:Ek; try discriminate.
+      * apply IH; [|assumption|cbn in Hd; lia].
+        eapply field_kind_wf; try eassumption. congruence.
+      * reflexivity.
+    + pose proof (lookup_wf _ _ El) as Hw. cbn in Hw.
+      rewrite (ht_struct _ _ _ _ El) in Hht. destruct v; try discriminate.
+      rewrite (enc_struct _ _ _ El).
+      apply enc_rec_item; [apply hts_length; assumption|].
+      intros p fl v Hf Hv r f' n'.
+      pose proof (hts_nth _ _ _ _ _ Hht Hf Hv) as Hh. unfold Cbor.htf in Hh. unfold Cbor.encf.
+      destruct (fkind_of fl) as [t'|c|] eqn:Ek.
+      * destruct (f_idx fl) eqn:Ei.
+        -- apply IH; [|assumption|].
+           ++ eapply field_kind_wf; try eassumption. eapply fields_wf_field; eassumption. congruence.
+           ++ cbn in Hd. pose proof (vdepth_in _ _ (nth_error_In _ _ Hv)). lia.
+        -- (* skipped field: never reached by a slot, but the statement is per field; its type is plain data *)
+           pose proof (fields_wf_field _ _ _ Hw Hf) as Hfw. unfold field_wf in Hfw. rewrite Ei in Hfw.
+           unfold fkind_of in Ek. destruct (f_ty fl) eqn:Et; try discriminate.
+           destruct (f_codec fl); try discriminate. inversion Ek; subst t'.
+           rewrite enc_TP. rewrite ht_TP in Hh. apply prim_item. exact Hh.
+      * reflexivity.
+      * destruct (f_idx fl) eqn:Ei; [discriminate|].
+        pose proof (fields_wf_field _ _ _ Hw Hf) as Hfw. unfold field_wf in Hfw. rewrite Ei in Hfw.
+        unfold fkind_of in Ek. destruct (f_ty fl); try discriminate. destruct (f_codec fl); discriminate.
+    + pose proof (lookup_wf _ _ El) as Hw. cbn in Hw.
+      apply andb_true_iff in Hw. destruct Hw as [Hw Hr]. apply andb_true_iff in Hw. destruct Hw as [Hvw Hnd].
+      rewrite (ht_enum _ _ _ El) in Hht. destruct v; try discriminate.
+      destruct (nth_error vs k) as [vr|] eqn:Ek; [|discriminate].
+      rewrite (enc_enum _ _ _ _ _ El Ek). cbn [length app Nat.add skip_items].
+      rewrite forallb_forall in Hvw. pose proof (Hvw vr (nth_error_In _ _ Ek)) as Hv1.
+      unfold variant_wf in Hv1. apply andb_true_iff in Hv1. destruct Hv1 as [Hfw Hu].
+      apply enc_rec_item; [apply hts_length; assumption|].
+      intros p fl v Hf Hv r f' n'.
+      pose proof (hts_nth _ _ _ _ _ Hht Hf Hv) as Hh. unfold Cbor.htf in Hh. unfold Cbor.encf.
+      destruct (fkind_of fl) as [t'|c|] eqn:Ekk.
+      * destruct (f_idx fl) eqn:Ei.
+        -- apply IH; [|assumption|].
+           ++ eapply field_kind_wf; try eassumption. eapply fields_wf_field; eassumption. congruence.
+           ++ cbn in Hd. pose proof (vdepth_in _ _ (nth_error_In _ _ Hv)). lia.
+        -- pose proof (fields_wf_field _ _ _ Hfw Hf) as Hfw'. unfold field_wf in Hfw'. rewrite Ei in Hfw'.
+           unfold fkind_of in Ekk. destruct (f_ty fl) eqn:Et; try discriminate.
+           destruct (f_codec fl); try discriminate. inversion Ekk; subst t'.
+           rewrite enc_TP. rewrite ht_TP in Hh. apply prim_item. exact Hh.
+      * reflexivity.
+      * destruct (f_idx fl) eqn:Ei; [discriminate|].
+        pose proof (fields_wf_field _ _ _ Hfw Hf) as Hfw'. unfold field_wf in Hfw'. rewrite Ei in Hfw'.
+        unfold fkind_of in Ekk. destruct (f_ty fl); try discriminate. destruct (f_codec fl); discriminate.
+    + rewrite ht_none_ref in Hht by assumption. discriminate.
+  - cbn in Hty. discriminate.
+Qed.
+
+Theorem enc_one_item : forall t v, ty_wf Sc t = true -> ht t v = true ->
+  wellformed_items 1 (enc t v) = true.
+Proof.
+  intros t v Hty Hht. unfold wellformed_items.
+  pose proof (enc_items_fuel (S (vdepth v)) t v [] 1 0 Hty Hht (Nat.lt_succ_diag_r _)) as H.
+  rewrite app_nil_r in H. rewrite Nat.add_1_r in H. rewrite H. reflexivity.
+Qed.
+
+
+(* ------------------------------------------------------------------ *)
+(* a reloaded value is well-typed and at rest: reloading it again changes nothing *)
+Lemma default_typed : forall p, ht_prim p (default_prim p) = true.
+Proof. destruct p; reflexivity. Qed.
+
+Lemma erases_fix : forall fs l,
+  length fs = length l ->
+  (forall p f v, nth_error fs p = Some f -> nth_error l p = Some v ->
+     htf f (erasef f v) = true /\ erasef f (erasef f v) = erasef f v) ->
+  hts fs (erases fs l) = true /\ erases fs (erases fs l) = erases fs l.
+Proof.
+  intros fs l. revert fs. induction l as [|v l IH]; intros [|f fs] Hlen H; cbn in Hlen; try discriminate.
+  - split; reflexivity.
+  - cbn [Cbor.erases Cbor.hts].
+    destruct (H 0 f v eq_refl eq_refl) as [H1 H2].
+    destruct (IH fs) as [I1 I2]; [lia| |].
+    + intros p f' v' Hf Hv. exact (H (S p) f' v' Hf Hv).
+    + rewrite H1, I1, H2, I2. split; reflexivity.
+Qed.
+
+Lemma erase_tuple_fix : forall tys l,
+  ht_tuple Sc tys l = true ->
+  (forall t v, In t tys -> In v l -> ht t v = true -> ht t (erase t v) = true /\ erase t (erase t v) = erase t v) ->
+  ht_tuple Sc tys (erase_tuple Sc tys l) = true /\ erase_tuple Sc tys (erase_tuple Sc tys l) = erase_tuple Sc tys l.
+Proof.
+  intros tys l. revert tys. induction l as [|v l IH]; intros [|t tys] Hh H; cbn in Hh; try discriminate.
+  - split; reflexivity.
+  - apply andb_true_iff in Hh. destruct Hh as [H1 H2].
+    cbn [Cbor.erase_tuple Cbor.ht_tuple].
+    destruct (H t v (or_introl eq_refl) (or_introl eq_refl) H1) as [A B].
+    destruct (IH tys H2) as [I1 I2].
+    + intros; apply H; try (right; assumption); assumption.
+    + rewrite A, I1, B, I2. split; reflexivity.
+Qed.
+
+Theorem erase_fix_fuel : forall d t v,
+  ty_wf Sc t = true -> ht t v = true -> vdepth v < d ->
+  ht t (erase t v) = true /\ erase t (erase t v) = erase t v.
+Proof.
+  induction d as [|d IH]; intros t v Hty Hht Hd; [lia|].
+  (* the step for a field of a struct / variant, shared by three cases *)
+  assert (FIELD : forall fs l, fields_wf Sc fs = true -> hts fs l = true ->
+            (forall x, In x l -> vdepth x < d) ->
+            forall p f v, nth_error fs p = Some f -> nth_error l p = Some v ->
+              htf f (erasef f v) = true /\ erasef f (erasef f v) = erasef f v).
+  { intros fs l Hw Hh Hdl p f x Hf Hv.
+    pose proof (hts_nth _ _ _ _ _ Hh Hf Hv) as Hx.
+    pose proof (fields_wf_field _ _ _ Hw Hf) as Hfw0. pose proof Hfw0 as Hfw.
+    unfold Cbor.htf in Hx. unfold Cbor.htf, Cbor.erasef. unfold field_wf in Hfw.
+    destruct (f_idx f) eqn:Ei.
+    - destruct (fkind_of f) as [t'|c|] eqn:Ek; try discriminate.
+      + apply IH; [|assumption|apply Hdl; eapply nth_error_In; eassumption].
+        eapply field_kind_wf; try eassumption. congruence.
+      + split; reflexivity.
+    - destruct (f_ty f) eqn:Et; try discriminate. cbn [default_of].
+      rewrite ht_TP. split; [apply default_typed|reflexivity]. }
+  destruct t.
+  - rewrite !erase_TP. auto.
+  - cbn [ty_wf] in Hty. apply andb_true_iff in Hty. destruct Hty as [Hty _].
+    destruct v; cbn [Cbor.ht] in Hht; try discriminate.
+    + split; reflexivity.
+    + cbn [Cbor.erase Cbor.ht]. destruct (IH t v Hty Hht) as [A B]; [cbn in Hd; lia|].
+      rewrite B. auto.
+  - destruct v; cbn [Cbor.ht] in Hht; try discriminate. cbn [ty_wf] in Hty.
+    cbn [Cbor.erase Cbor.ht]. rewrite forallb_forall in Hht.
+    assert (E : forall x, In x l -> ht t (erase t x) = true /\ erase t (erase t x) = erase t x).
+    { intros x Hin. apply IH; [assumption|apply Hht; assumption|].
+      cbn in Hd. pose proof (vdepth_in _ _ Hin). lia. }
+    split.
+    + apply forallb_forall. intros y Hy. apply in_map_iff in Hy. destruct Hy as (x & <- & Hin). apply E. exact Hin.
+    + f_equal. rewrite map_map. apply map_ext_in. intros x Hin. apply E. exact Hin.
+  - destruct v; cbn [Cbor.ht] in Hht; try discriminate. cbn [ty_wf] in Hty.
+    apply andb_true_iff in Hty. destruct Hty as [Hk Hv].
+    cbn [Cbor.erase Cbor.ht]. rewrite forallb_forall in Hht.
+    assert (E : forall e, In e l ->
+                match e with VPair k x => ht t1 (erase t1 k) = true /\ erase t1 (erase t1 k) = erase t1 k
+                                           /\ ht t2 (erase t2 x) = true /\ erase t2 (erase t2 x) = erase t2 x
+                        | _ => False end).
+    { intros e Hin. pose proof (Hht e Hin) as He. destruct e; try discriminate.
+      apply andb_true_iff in He. destruct He as [H1 H2].
+      pose proof (vdepth_in _ _ Hin) as Hdd. cbn in Hd. cbn [vdepth] in Hdd.
+      destruct (IH t1 e1 Hk H1) as [A B]; [lia|]. destruct (IH t2 e2 Hv H2) as [C D]; [lia|]. auto. }
+    split.
+    + apply forallb_forall. intros y Hy. apply in_map_iff in Hy. destruct Hy as (e & <- & Hin).
+      pose proof (E e Hin) as He. destruct e; try contradiction. destruct He as (A & _ & C & _). rewrite A, C. reflexivity.
+    + f_equal. rewrite map_map. apply map_ext_in. intros e Hin.
+      pose proof (E e Hin) as He. destruct e; try contradiction. destruct He as (_ & B & _ & D). rewrite B, D. reflexivity.
+  - destruct v; try (cbn [Cbor.ht] in Hht; discriminate).
+    rewrite ht_tup in Hht. rewrite erase_tup, ht_tup, erase_tup.
+    destruct (erase_tuple_fix l l0 Hht) as [A B].
+    + intros t v Ht Hv Hh. apply IH; [eapply ty_wf_tup; eassumption|assumption|].
+      cbn in Hd. pose proof (vdepth_in _ _ Hv). lia.
+    + rewrite A, B. auto.
+  - destruct (lookup name) as [[b fs|vs]|] eqn:El.
+    + pose proof (lookup_wf _ _ El) as Hw.
+      assert (Hfw : fields_wf Sc fs = true).
+      { destruct b; cbn in Hw; [|exact Hw]. destruct fs as [|f [|]]; try discriminate.
+        apply andb_true_iff in Hw. destruct Hw as [Hw Hi]. unfold fields_wf. cbn. rewrite Hw.
+        destruct (f_idx f); reflexivity. }
+      rewrite (ht_struct _ _ _ _ El) in Hht. destruct v; try discriminate.
+      rewrite (erase_struct _ _ _ _ El), (ht_struct _ _ _ _ El), (erase_struct _ _ _ _ El).
+      destruct (erases_fix fs l (hts_length _ _ Hht)) as [A B].
+      * eapply FIELD; try eassumption. intros x Hin. cbn in Hd. pose proof (vdepth_in _ _ Hin). lia.
+      * rewrite A, B. auto.
+    + pose proof (lookup_wf _ _ El) as Hw. cbn in Hw.
+      apply andb_true_iff in Hw. destruct Hw as [Hw Hr]. apply andb_true_iff in Hw. destruct Hw as [Hvw Hnd].
+      rewrite (ht_enum _ _ _ El) in Hht. destruct v; try discriminate.
+      destruct (nth_error vs k) as [vr|] eqn:Ek; [|discriminate].
+      rewrite (erase_enum _ _ _ _ _ El Ek), (ht_enum _ _ _ El), Ek, (erase_enum _ _ _ _ _ El Ek).
+      rewrite forallb_forall in Hvw. pose proof (Hvw vr (nth_error_In _ _ Ek)) as Hv1.
+      unfold variant_wf in Hv1. apply andb_true_iff in Hv1. destruct Hv1 as [Hfw Hu].
+      destruct (erases_fix (v_fields vr) l (hts_length _ _ Hht)) as [A B].
+      * eapply FIELD; try eassumption. intros x Hin. cbn in Hd. pose proof (vdepth_in _ _ Hin). lia.
+      * rewrite A, B. auto.
+    + rewrite ht_none_ref in Hht by assumption. discriminate.
+  - cbn in Hty. discriminate.
+Qed.
+
 End RT.
+
+Theorem erase_at_rest : forall (S : schema), wf_schema S = true ->
+  forall t v, ty_wf S t = true -> ht S t v = true ->
+  ht S t (erase S t v) = true /\ erase S t (erase S t v) = erase S t v.
+Proof. intros S WF t v Hty Hht. eapply erase_fix_fuel; try eassumption. apply Nat.lt_succ_diag_r. Qed.
+
+Theorem encoding_wellformed : forall (S : schema), wf_schema S = true ->
+  forall t v, ty_wf S t = true -> ht S t v = true -> wellformed_items 1 (enc S t v) = true.
+Proof. intros. apply enc_one_item; assumption. Qed.
 
 Theorem roundtrip_generic : forall (S : schema), wf_schema S = true ->
   forall t v rest, ty_wf S t = true -> ht S t v = true ->
   dec S (Datatypes.S (vdepth v)) t (enc S t v ++ rest) = Some (erase S t v, rest).
 Proof. intros S WF t v rest Hty Hht. apply roundtrip_fuel; try assumption. lia. Qed.
+
+(* ------------------------------------------------------------------ *)
+(* bytes <-> tokens *)
+Local Open Scope N_scope.
+
+Lemma be_fold : forall k a acc,
+  fold_left (fun acc b => acc * 256 + b) (be_bytes k a) acc = acc * 256 ^ N.of_nat k + a mod 256 ^ N.of_nat k.
+Proof.
+  induction k as [|k IH]; intros a acc.
+  - cbn [be_bytes fold_left]. change (N.of_nat 0) with 0. rewrite N.pow_0_r, N.mod_1_r. lia.
+  - cbn [be_bytes fold_left]. rewrite IH.
+    rewrite Nnat.Nat2N.inj_succ, N.pow_succ_r'.
+    rewrite (N.mul_comm 256 (256 ^ N.of_nat k)).
+    rewrite (N.mod_mul_r a (256 ^ N.of_nat k) 256) by (try apply N.pow_nonzero; lia).
+    lia.
+Qed.
+
+Lemma from_be_bytes : forall k a, a < 256 ^ N.of_nat k -> from_be (be_bytes k a) = a.
+Proof. intros k a H. unfold from_be. rewrite be_fold. rewrite N.mod_small by assumption. lia. Qed.
+
+Lemma be_bytes_length : forall k a, length (be_bytes k a) = k.
+Proof. induction k; intros; cbn; [reflexivity|]. f_equal. apply IHk. Qed.
+
+Lemma firstn_exact : forall {X} (l r : list X), firstn (length l) (l ++ r) = l.
+Proof. intros. rewrite firstn_app, Nat.sub_diag, firstn_all. cbn. apply app_nil_r. Qed.
+Lemma skipn_exact : forall {X} (l r : list X), skipn (length l) (l ++ r) = r.
+Proof. intros. rewrite skipn_app, Nat.sub_diag, skipn_all. reflexivity. Qed.
+
+Lemma firstn_len : forall {X} (l r : list X) k, length l = k -> firstn k (l ++ r) = l.
+Proof. intros. subst. apply firstn_exact. Qed.
+Lemma skipn_len : forall {X} (l r : list X) k, length l = k -> skipn k (l ++ r) = r.
+Proof. intros. subst. apply skipn_exact. Qed.
+
+Lemma div32 : forall m x, x < 32 -> (m * 32 + x) / 32 = m.
+Proof. intros. rewrite N.div_add_l by lia. rewrite N.div_small by assumption. lia. Qed.
+Lemma mod32 : forall m x, x < 32 -> (m * 32 + x) mod 32 = x.
+Proof. intros. rewrite N.add_comm, N.mod_add by lia. apply N.mod_small. assumption. Qed.
+
+Lemma read_be : forall k ai a rest,
+  a < 256 ^ N.of_nat k ->
+  (ai <? 24) = false ->
+  (if ai =? 24 then 1%nat else if ai =? 25 then 2%nat else if ai =? 26 then 4%nat else if ai =? 27 then 8%nat else 0%nat) = k ->
+  k <> 0%nat ->
+  read_arg ai (be_bytes k a ++ rest) = Some (a, rest).
+Proof.
+  intros k ai a rest Ha Hai Hk Hk0. unfold read_arg. rewrite Hai, Hk.
+  destruct (Nat.eqb k 0) eqn:E; [apply Nat.eqb_eq in E; contradiction|].
+  assert (Hl : Nat.ltb (length (be_bytes k a ++ rest)) k = false).
+  { apply Nat.ltb_ge. rewrite app_length, be_bytes_length. lia. }
+  rewrite Hl.
+  rewrite (firstn_len _ _ k (be_bytes_length k a)), (skipn_len _ _ k (be_bytes_length k a)).
+  rewrite from_be_bytes by assumption. reflexivity.
+Qed.
+
+(* head of major type m < 7 followed by anything: the first byte splits into m and the additional
+   information, and the argument reads back *)
+Lemma head_read : forall m a rest, m < 7 -> a < two64 ->
+  exists b0 args, head m a = b0 :: args /\ b0 / 32 = m /\ read_arg (b0 mod 32) (args ++ rest) = Some (a, rest).
+Proof.
+  intros m a rest Hm Ha. unfold head.
+  destruct (a <? 24) eqn:E1.
+  - apply N.ltb_lt in E1. exists (m * 32 + a), []. split; [reflexivity|]. split; [apply div32; lia|].
+    rewrite mod32 by lia. unfold read_arg. apply N.ltb_lt in E1. rewrite E1. reflexivity.
+  - destruct (a <? two8) eqn:E2.
+    + apply N.ltb_lt in E2. exists (m * 32 + 24), [a]. split; [reflexivity|]. split; [apply div32; lia|].
+      rewrite mod32 by lia. change [a] with ([a] ++ []). 
+      replace ([a] ++ []) with (be_bytes 1 a).
+      * apply read_be; try reflexivity; [exact E2|discriminate].
+      * cbn. rewrite N.div_1_r. rewrite N.mod_small by exact E2. reflexivity.
+    + destruct (a <? two16) eqn:E3.
+      * apply N.ltb_lt in E3. exists (m * 32 + 25), (be_bytes 2 a). split; [reflexivity|]. split; [apply div32; lia|].
+        rewrite mod32 by lia. apply read_be; try reflexivity; [exact E3|discriminate].
+      * destruct (a <? two32) eqn:E4.
+        -- apply N.ltb_lt in E4. exists (m * 32 + 26), (be_bytes 4 a). split; [reflexivity|]. split; [apply div32; lia|].
+           rewrite mod32 by lia. apply read_be; try reflexivity; [exact E4|discriminate].
+        -- exists (m * 32 + 27), (be_bytes 8 a). split; [reflexivity|]. split; [apply div32; lia|].
+           rewrite mod32 by lia. apply read_be; try reflexivity; [exact Ha|discriminate].
+Qed.
+
+Lemma tok_of_bytes_head : forall m a rest (k : N -> list N -> option (tok * list N)),
+  m < 7 -> a < two64 ->
+  (forall b0 args, head m a = b0 :: args -> b0 / 32 = m ->
+     tok_of_bytes (b0 :: args ++ rest) =
+     match read_arg (b0 mod 32) (args ++ rest) with None => None | Some (a', r') => k a' r' end) ->
+  tok_of_bytes (head m a ++ rest) = k a rest.
+Proof.
+  intros m a rest k Hm Ha H. destruct (head_read m a rest Hm Ha) as (b0 & args & Hh & Hd & Hr).
+  rewrite Hh. cbn [app]. rewrite (H b0 args Hh Hd), Hr. reflexivity.
+Qed.
+
+Lemma tok_bytes_rt : forall t rest, tok_ok t = true -> tok_of_bytes (bytes_of_tok t ++ rest) = Some (t, rest).
+Proof.
+  intros t rest Hok. destruct t; cbn [tok_ok] in Hok; cbn [bytes_of_tok].
+  - apply N.ltb_lt in Hok.
+    apply (tok_of_bytes_head 0 n rest (fun a r => Some (TUInt a, r))); [lia|assumption|].
+    intros b0 args _ Hd. unfold tok_of_bytes. rewrite Hd. reflexivity.
+  - apply N.ltb_lt in Hok.
+    apply (tok_of_bytes_head 1 n rest (fun a r => Some (TNInt a, r))); [lia|assumption|].
+    intros b0 args _ Hd. unfold tok_of_bytes. rewrite Hd. reflexivity.
+  - apply andb_true_iff in Hok. destruct Hok as [Hl _]. apply N.ltb_lt in Hl.
+    rewrite <- app_assoc.
+    rewrite (tok_of_bytes_head 3 (N.of_nat (length s)) (s ++ rest)
+               (fun a r => let n := N.to_nat a in
+                           if Nat.ltb (length r) n then None else Some (TText (firstn n r), skipn n r)));
+      [|lia|assumption|].
+    + cbn zeta. rewrite Nnat.Nat2N.id.
+      assert (Hlt : Nat.ltb (length (s ++ rest)) (length s) = false).
+      { apply Nat.ltb_ge. rewrite app_length. lia. }
+      rewrite Hlt, firstn_exact, skipn_exact. reflexivity.
+    + intros b0 args _ Hd. unfold tok_of_bytes. rewrite Hd. reflexivity.
+  - apply N.ltb_lt in Hok.
+    rewrite (tok_of_bytes_head 4 (N.of_nat n) rest (fun a r => Some (TArr (N.to_nat a), r))); [|lia|assumption|].
+    + rewrite Nnat.Nat2N.id. reflexivity.
+    + intros b0 args _ Hd. unfold tok_of_bytes. rewrite Hd. reflexivity.
+  - apply N.ltb_lt in Hok.
+    rewrite (tok_of_bytes_head 5 (N.of_nat n) rest (fun a r => Some (TMap (N.to_nat a), r))); [|lia|assumption|].
+    + rewrite Nnat.Nat2N.id. reflexivity.
+    + intros b0 args _ Hd. unfold tok_of_bytes. rewrite Hd. reflexivity.
+  - reflexivity.
+  - destruct b; reflexivity.
+  - apply N.ltb_lt in Hok. cbn [app tok_of_bytes].
+    change (251 / 32 =? 7) with true. change (251 mod 32) with 27. cbn [N.eqb Pos.eqb].
+    assert (Hl : Nat.ltb (length (be_bytes 8 bits ++ rest)) 8 = false).
+    { apply Nat.ltb_ge. rewrite app_length, be_bytes_length. lia. }
+    cbv iota. rewrite Hl.
+    rewrite (firstn_len _ _ 8%nat (be_bytes_length 8 bits)), (skipn_len _ _ 8%nat (be_bytes_length 8 bits)).
+    rewrite from_be_bytes; [reflexivity|exact Hok].
+Qed.
+
+Local Close Scope N_scope.
+
+Lemma bytes_of_tok_nonempty : forall t, bytes_of_tok t <> [].
+Proof.
+  intros t. destruct t; cbn [bytes_of_tok]; try discriminate; try (destruct b; discriminate);
+    unfold head; repeat match goal with |- context [if ?c then _ else _] => destruct c end; try discriminate;
+    cbn; discriminate.
+Qed.
+
+Theorem bytes_roundtrip : forall ts fuel, forallb tok_ok ts = true -> length ts <= fuel ->
+  toks_of_bytes fuel (bytes_of_toks ts) = Some ts.
+Proof.
+  induction ts as [|t ts IH]; intros fuel Hok Hf.
+  - destruct fuel; reflexivity.
+  - cbn [forallb] in Hok. apply andb_true_iff in Hok. destruct Hok as [H1 H2].
+    unfold bytes_of_toks. cbn [flat_map]. fold (bytes_of_toks ts).
+    destruct fuel as [|fuel]; [cbn in Hf; lia|].
+    pose proof (bytes_of_tok_nonempty t) as Hne.
+    destruct (bytes_of_tok t ++ bytes_of_toks ts) as [|b0 r0] eqn:Eb.
+    + destruct (bytes_of_tok t); [congruence|discriminate].
+    + cbn [toks_of_bytes]. rewrite <- Eb. rewrite tok_bytes_rt by assumption.
+      rewrite IH; [reflexivity|assumption|cbn in Hf; lia].
+Qed.
+
+Lemma bytes_length_ge : forall ts, length ts <= length (bytes_of_toks ts).
+Proof.
+  induction ts as [|t ts IH]; [cbn; lia|].
+  unfold bytes_of_toks in *. cbn [flat_map length]. rewrite app_length.
+  pose proof (bytes_of_tok_nonempty t). destruct (bytes_of_tok t); [congruence|cbn; lia].
+Qed.
+
+(* the whole chain: loading the bytes of a saved value gives the reloaded value *)
+Theorem file_roundtrip : forall (S : schema), wf_schema S = true ->
+  forall t v, ty_wf S t = true -> ht S t v = true ->
+  forallb tok_ok (enc S t v) = true ->
+  vdepth v <= length (enc S t v) ->
+  load_bytes S t (save_bytes S t v) = Some (reload S t v).
+Proof.
+  intros S WF t v Hty Hht Hok Hdep. unfold load_bytes, save_bytes.
+  rewrite bytes_roundtrip by (try assumption; apply bytes_length_ge).
+  pose proof (roundtrip_fuel S WF (Datatypes.S (length (enc S t v))) t v [] Hty Hht) as H.
+  rewrite app_nil_r in H. rewrite H by lia. reflexivity.
+Qed.
+
+(* two values with the same file are the same store after loading *)
+Theorem enc_injective : forall (S : schema), wf_schema S = true ->
+  forall t v1 v2, ty_wf S t = true -> ht S t v1 = true -> ht S t v2 = true ->
+  enc S t v1 = enc S t v2 -> erase S t v1 = erase S t v2.
+Proof.
+  intros S WF t v1 v2 Hty H1 H2 E.
+  pose proof (roundtrip_fuel S WF (Datatypes.S (Nat.max (vdepth v1) (vdepth v2))) t v1 [] Hty H1) as R1.
+  pose proof (roundtrip_fuel S WF (Datatypes.S (Nat.max (vdepth v1) (vdepth v2))) t v2 [] Hty H2) as R2.
+  rewrite E in R1. rewrite R1 in R2 by lia. specialize (R2 ltac:(lia)). congruence.
+Qed.
+
+(* second generation: saving and loading a loaded value is the identity *)
+Theorem second_generation : forall (S : schema), wf_schema S = true ->
+  forall t v rest, ty_wf S t = true -> ht S t v = true ->
+  exists fuel, dec S fuel t (enc S t (erase S t v) ++ rest) = Some (erase S t v, rest).
+Proof.
+  intros S WF t v rest Hty Hht. destruct (erase_at_rest S WF t v Hty Hht) as [A B].
+  exists (Datatypes.S (vdepth (erase S t v))).
+  rewrite (roundtrip_generic S WF t (erase S t v) rest Hty A). rewrite B. reflexivity.
+Qed.
